@@ -393,6 +393,11 @@ func (l *PartitionLog) uploadFlush(ctx context.Context, artifact *SegmentArtifac
 	})
 	if err := g.Wait(); err != nil {
 		l.mu.Lock()
+		// Put the drained batches back at the front of the buffer so the next
+		// flush retries them. Dropping them here would let a producer that is
+		// waiting in Flush for this upload find an empty buffer, return nil and
+		// acknowledge records that were never stored.
+		l.buffer.Prepend(l.flushingBatches)
 		l.flushing = false
 		l.flushingBatches = nil
 		l.flushCond.Broadcast()
